@@ -68,6 +68,8 @@ def conc(case):
     r64 = _with_dtype(np.int64, lambda: H["conc"](dict(base)))
     r32 = _with_dtype(np.int32, lambda: H["conc"](dict(base)))
     opts = dict(r64[2]) if len(r64) > 2 else {}
+    if STRICT[0]:
+        opts["dtype_matters"] = True
     g32, g64 = _strip_index_dtype(common.norm_obs(r32[0])), _strip_index_dtype(common.norm_obs(r64[0]))
     # the 32-bit run must equal the 64-bit run; the 64-bit run is judged against the reference by the base property's own check
     return g32, g64, opts
